@@ -11,6 +11,12 @@
     hexd  <hstr>      hex_decode of an arbitrary string; answer `<hdec>` or `err`
     json  <doc>       json_parse --collection, json_encode --collection;
                       answer `J <encoded|-|err> <normalised|->`
+    jprint <doc>      the JSON TEXT layer (`Sdk/JsonText.lean`): the compact text of the document and
+                      the text `json_parse --collection` + `json_encode --collection` make of it;
+                      answer `P <hex text> <hex text'|-|err|err-parse|FLOAT|FUEL>`
+    jparse <htext>    `serde_json::from_str::<Value>` of an arbitrary text; answer `V <doc>`,
+                      `ERR`, `FLOAT` (the text has a number the crate reads as f64: outside the
+                      model) or `FUEL` (never)
     props <vars>      map_to_properties → map_load_properties.  There is no model of the
                       java-properties format: the answer is the property's reading itself
                       (the same map back), `ok <vars>`.
@@ -21,6 +27,7 @@
 import DuckModel.Wire
 import DuckModel.Sdk.Encode
 import DuckModel.Sdk.Utf8Decode
+import DuckModel.Sdk.JsonText
 
 namespace Duck.Drv.C17
 open Duck Duck.Wire Duck.Enc
@@ -155,6 +162,26 @@ def doJson (doc : Json) : String :=
     | none => "-"
   "J " ++ enc ++ " " ++ nrm
 
+def errName : JsonText.JErr → String
+  | .syntax => "ERR"
+  | .float => "FLOAT"
+  | .fuel => "FUEL"
+
+def doJPrint (doc : Json) : String :=
+  let text := JsonText.printJson doc
+  let back := match JsonText.parseEncodeText text with
+    | .error .syntax => "err-parse"
+    | .error e => errName e
+    | .ok none => "-"
+    | .ok (some (.error _)) => "err"
+    | .ok (some (.ok t)) => hexOfStr t
+  "P " ++ hexOfStr text ++ " " ++ back
+
+def doJParse (text : Str) : String :=
+  match JsonText.parseJsonE text with
+  | .ok j => "V " ++ eJson j
+  | .error e => errName e
+
 def handle (toks : List String) : Option String :=
   match toks with
   | ["e17text", t] => some (match decStr t with | some s => doText s | none => bad)
@@ -166,6 +193,11 @@ def handle (toks : List String) : Option String :=
     some (match pJson t.toList with
       | some (doc, []) => doJson doc
       | _ => bad)
+  | ["e17jprint", t] =>
+    some (match pJson t.toList with
+      | some (doc, []) => doJPrint doc
+      | _ => bad)
+  | ["e17jparse", t] => some (match decStr t with | some s => doJParse s | none => bad)
   | ["e17props", t] => some (match decVars t with | some m => "ok " ++ encVars m | none => bad)
   | _ => none
 
